@@ -14,6 +14,7 @@ import VotelibProofs.Lemmas.MonoBucklin
 import VotelibProofs.Lemmas.MonoMinimax
 import VotelibProofs.Lemmas.MonoBridge
 import VotelibProofs.Lemmas.MonoRules
+import VotelibProofs.Lemmas.MonoSchulze
 namespace VL.C17
 open VL HACfg Gen.Divisor VL.Convert VL.Mono
 
@@ -507,6 +508,37 @@ theorem minimax_monotone_bullet (sc : Condorcet.Scorer) (p : RProfile) (w : Cand
   exact minimax_monotone sc _ _ w f.wf f.wf' f.raised
     (fun c => ⟨f.cands c, candidates_bullet_superset p w (candidates_sub_arc p w hw) c⟩) h
 
+/-! ### Schulze
+
+  `BeatsAll v w`: `w` is a candidate and wins the strongest-path comparison against every other candidate
+  (`P[w,x] > P[x,w]`, `P = widest_paths(v)`) — the "strict beat-path win over everybody" of the reading; it makes `w`
+  the sole Schulze winner (`schulze_of_beatsAll`). -/
+
+open VL.Condorcet in
+/-- **Schulze, matrix level.**  If `w` beats everybody on strongest paths in `v`, then in every `Raised` matrix `v'` over
+    the same candidates it still does, and the Schulze result is `[w]` (in `v` and in `v'`). -/
+theorem schulze_monotone (v v' : Pairwise) (w : Cand) (hwf : Condorcet.WF v) (hwf' : Condorcet.WF v')
+    (hr : Raised v v' w) (hc : ∀ c, c ∈ candidates v' ↔ c ∈ candidates v) (hb : BeatsAll v w) :
+    schulze v 1 = [Slot.cand w] ∧ BeatsAll v' w ∧ schulze v' 1 = [Slot.cand w] :=
+  ⟨schulze_of_beatsAll hwf hb, beatsAll_raised hwf hwf' hr hc hb,
+    schulze_of_beatsAll hwf' (beatsAll_raised hwf hwf' hr hc hb)⟩
+
+/-- **Schulze, single ballot improvement.** -/
+theorem schulze_monotone_lift (p : RProfile) (w : Cand) (i : Nat) (b : Ballot)
+    (hp : ProfileOK p) (hb : b ∈ dkeys p) (hunit : ∀ bw ∈ p, bw.1 = b → 1 ≤ bw.2) (hok : liftOK w i b = true)
+    (h : BeatsAll (pairwiseOf p) w) :
+    evalSchulze (replaceUnit p b (lift w i b)) = [Slot.cand w] := by
+  have f := matrixFacts_lift p w i b hp hb hunit hok h.1
+  exact (schulze_monotone _ _ w f.wf f.wf' f.raised
+    (fun c => ⟨f.cands c, candidates_lift_superset p w i b hp hb hok h.1 c⟩) h).2.2
+
+/-- **Schulze, new ballot**: a bullet ballot for `w`. -/
+theorem schulze_monotone_bullet (p : RProfile) (w : Cand) (hp : ProfileOK p) (h : BeatsAll (pairwiseOf p) w) :
+    evalSchulze (addTo p [RankItem.one w] 1) = [Slot.cand w] := by
+  have f := matrixFacts_bullet p w hp h.1
+  exact (schulze_monotone _ _ w f.wf f.wf' f.raised
+    (fun c => ⟨f.cands c, candidates_bullet_superset p w (candidates_sub_arc p w h.1) c⟩) h).2.2
+
 /-! ## non-vacuity: concrete inputs that meet the hypotheses of the conditional theorems -/
 
 section examples
@@ -565,6 +597,7 @@ example : minimax .winningVotes (pairwiseOf exBase) 1 = [Slot.cand 0] ∧ copela
   decide +kernel
 example : minimax .winningVotes (pairwiseOf exPert) 1 = [Slot.cand 0] := by decide +kernel
 example : ProfileOK exBase := ⟨by decide +kernel, by decide +kernel, by decide +kernel⟩
+example : BeatsAll (pairwiseOf exBase) 0 ∧ evalSchulze exBase = [Slot.cand 0] := by decide +kernel
 example : evalMinimax .winningVotes exBase = [Slot.cand 0] ∧ evalCopeland false exBase = [Slot.cand 0] ∧
     liftOK 0 0 [.one 2, .one 3, .one 1, .one 0] = true := by decide +kernel
 example : (candidates (pairwiseOf exPert)).all (fun c => (candidates (pairwiseOf exBase)).contains c) = true := by
